@@ -434,9 +434,9 @@ Definition aux_distinct (ts : list target) : bool :=
 (* [core_x]: [core_d] and
      - function expressions with a name that is not also a parameter or a declaration of the body
        (c04-es:funcexpr-name-redeclared),
-     - loops whose head (let / const / var declarations, initialisers, the iterated expression) mentions no
-       name that the loop body declares lexically, and whose var names differ from the lexical names of head and
-       body (c04-es:loop-head-shadowed-in-body and its mirror image for initialisers). *)
+     - loops whose body declares lexically no name that the head DECLARES (let / const / var:
+       c04-es:loop-head-shadowed-in-body), and whose var names differ from the lexical names of the head; the head
+       may mention (initialisers, iterated expression) names the body declares: the uses are frozen by MarkForStmt. *)
 Fixpoint core_x (p : prog) : bool :=
   match p with
   | Done => true
@@ -450,7 +450,7 @@ Fixpoint core_x (p : prog) : bool :=
       pcore_x ps && core_x b && core_x k
   | For hd b k =>
       core_x hd && core_x b && core_x k
-      && disjointb (allnames hd) (lexdecls b) && disjointb (vardecls hd) (lexdecls hd ++ lexdecls b)
+      && disjointb (lexdecls hd) (lexdecls b) && disjointb (vardecls hd) (lexdecls hd ++ lexdecls b)
   | Catch hd b k => catch_params_only hd && disjointb (headdecls hd) (vardecls b) && core_x b && core_x k
   | Class None ms k => core_x ms && is_nil (lexdecls ms) && is_nil (vardecls ms) && core_x k
   | _ => false
